@@ -202,6 +202,7 @@ def _rand_instance(rng, mmax, nmax, big=False):
         planted = {"vi": border}
         if kind == "vei":
             planted["vei"] = border
+            planted["wsc"] = border        # prefixes / suffixes: every difference of two of them is an interval
     elif kind in ("part", "part2"):
         k = 2 if kind == "part2" else rng.randint(1, max(1, min(4, m)))
         pool = list(alts)
@@ -308,6 +309,7 @@ def generate(tier, seed):
                     if dom == "part2" and n == 0 and "part2_no_ballots" not in _OPEN:
                         continue
                     out.append(_icase(dom, alts, prof, exh=1, ncat=1 + (len(out) % 2)))
+                out.append(_icase("cimat", alts, prof, exh=1, ncat=1 + (len(out) % 2)))
     if True:
         alts = label_sets[4]
         subs = list(_subsets(alts))
@@ -327,6 +329,7 @@ def generate(tier, seed):
             if dom in planted:
                 tags["planted"] = planted[dom]
             out.append(_icase(dom, alts, ballots, **tags))
+        out.append(_icase("cimat", alts, ballots, ncat=1 + (i % 2)))
     # ---- (3) large planted --------------------------------------------------------------------------------
     nbi = 40 if quick else 400
     for i in range(nbi):
@@ -430,10 +433,19 @@ def _run_domain(dom, alts, ballots, ncat):
     return [1, [sorted(int(x) for x in s) for s in w]]
 
 
+def _run_cimat(alts, ballots, ncat):
+    from preflibtools.properties.subdomains.dichotomous.interval import instance_to_ci_matrix
+    mat = instance_to_ci_matrix(_instance(alts, ballots, ncat))
+    shape = [int(x) for x in mat.shape]
+    return [shape, [[int(x) for x in row] for row in mat]]
+
+
 def impl(c):
     op, pl = c["op"], c["payload"]
     if op == "c05.matrix":
         return guarded(_run_matrix, pl[0], pl[1])
+    if op == "c05.cimat":
+        return guarded(_run_cimat, pl[0], pl[1], c["tags"].get("ncat", 2))
     return guarded(_run_domain, op[4:], pl[0], pl[1], c["tags"].get("ncat", 2))
 
 
@@ -455,9 +467,14 @@ def _plan(c, r):
         return plan
     dom = op[4:]
     alts, ballots = pl
+    if dom == "cimat":
+        plan.append(("ref", "c05.ci_decide", [alts, ballots]))
+        if okres and _cimat_shape_ok(r[1], alts, ballots):
+            plan.append(("mat", "c05.c1p_decide", [len(alts), r[1][1]]))
+        return plan
     dim = len(alts) if dom in CAND else (len(ballots) if dom in VOTER else 0)
-    if dim <= REF_MAX and not tags.get("big"):
-        plan.append(("ref", "c05.%s_decide" % dom, [alts, ballots]))
+    if dom in ("part", "part2") or (dim <= REF_MAX and not tags.get("big")):
+        plan.append(("ref", "c05.%s_decide" % dom, [alts, ballots]))     # the partition references are polynomial
     if "planted" in tags:
         if dom == "de":
             plan.append(("planted", "c05.de_construct", [alts, ballots, tags["planted"]]))
@@ -466,6 +483,12 @@ def _plan(c, r):
     if okres and r[1][0] == 1:
         plan.append(("witness", "c05.%s_check" % dom, [alts, ballots, r[1][1]]))
     return plan
+
+
+def _cimat_shape_ok(val, alts, ballots):
+    shape, rows = val
+    return (shape == [len(ballots), len(alts)] and len(rows) == len(ballots)
+            and all(len(row) == len(alts) and all(x in (0, 1) for x in row) for row in rows))
 
 
 def oracle_requests(c, r):
@@ -480,6 +503,13 @@ def judge(c, r, mres):
         return {"kind": "exception", "reason": "implementation raised: %s" % (txt,)}
     ans = {lb: m for (lb, _, _), m in zip(_plan(c, r), mres)}
     val = r[1]
+    if c["op"] == "c05.cimat":
+        if "mat" not in ans:
+            return "instance_to_ci_matrix: not a 0/1 matrix of shape (ballots, alternatives): %r" % (val,)
+        if ans["mat"] != ans["ref"]:
+            return ("instance_to_ci_matrix: consecutive-ones property of the matrix is %s but the instance is %s"
+                    "candidate interval" % (bool(ans["mat"]), "" if ans["ref"] else "not "))
+        return None
     v = val[0]
     what = "solve_consecutive_ones" if c["op"] == "c05.matrix" else c["op"][4:]
     if "ref" in ans and v != ans["ref"]:
@@ -531,6 +561,8 @@ def stats(c, r, m):
                 "matrix size %s" % size, "matrix %s" % ref]
     dom = c["op"][4:]
     size = "big" if tags.get("big") else ("exh" if tags.get("exh") else "rand")
+    if dom == "cimat":
+        return ["cimat %s ci=%s" % (size, m[0] if m else "?")]
     return ["%s %s verdict=%s" % (dom, size, v), "%s %s" % (dom, ref)]
 
 
@@ -571,7 +603,7 @@ def _part2_no_ballots(c, r, m, failure):
 
 PREDICATES = {"part2_no_ballots": _part2_no_ballots}
 THEOREMS_FOR_OP = {
-    "c05.matrix": "c1p_decide_correct, c1p_check_correct",
+    "c05.matrix": "c1p_decide_correct, c1p_check_correct", "c05.cimat": "ci_reduction",
     "c05.ci": "ci_decide_correct, ci_check_correct", "c05.cei": "cei_decide_correct, cei_check_correct",
     "c05.vi": "vi_decide_correct, vi_check_correct", "c05.vei": "vei_decide_correct, vei_check_correct",
     "c05.wsc": "wsc_decide_correct, wsc_check_correct", "c05.de": "de_decide_correct, de_check_correct, de_iff_ci",
